@@ -146,6 +146,7 @@ class Engine:
         self.access_hook = None     # f(kind, place_term, facts, loc) for places rooted at a static
         self.value_hook = None      # f(term, loc, facts) for every computed rvalue
         self.trait_dispatch = None  # f(trait, method) -> body path, for dyn / generic-Self calls
+        self.store_hook = None      # f(place_term, value, loc, facts) for writes through symbolic places
         self.branches = []          # (discriminant term, loc) of every non-constant SwitchInt
         self.loc = None
 
@@ -347,7 +348,34 @@ class Engine:
         t = cur[1]
         if self.access_hook is not None: self.note_access('read', t, st)
         if t in st.heap: return st.heap[t]
+        if st.heap and t[0] in ('fld', 'idx', 'dc'):
+            # a stored aggregate at a prefix of the place: project it
+            chain = []; r = t
+            while r[0] in ('fld', 'idx', 'dc') and r not in st.heap:
+                chain.append(r); r = r[1]
+            if r in st.heap:
+                v = st.heap[r]
+                for c in reversed(chain):
+                    if c[0] == 'fld': v = self.project(v, ('f', c[2]))
+                    elif c[0] == 'dc': v = self.project(v, ('dc', c[2]))
+                    else: v = self.project(v, ('i', c[2][2]) if is_const(c[2]) else ('ix', c[2]))
+                return v
         return self.fold_static_idx(t)
+
+    def run_method(self, path, self_value, args=(), facts=frozenset()):
+        """run a method taking `&self`/`&mut self`/`self` with a given abstract value for *self"""
+        body = self.crate.body(path)
+        if body is None: raise KeyError(path)
+        st = State(facts=frozenset(facts))
+        if body.local_ty(1)["k"] in ("ref", "ptr"):
+            st.heap[('tmp', 'self')] = self_value
+            a0 = ('ref_t', ('tmp', 'self'))
+        else:
+            a0 = self_value
+        names = body.param_names()
+        rest = [a if a is not None else ('p', names[i + 1]) for i, a in enumerate(args)]
+        rest += [('p', n) for n in names[1 + len(rest):]]
+        return self.run_body(body, [a0] + rest, st, fk=((path, -1),), stack=(path,))
 
     def note_access(self, kind, t, st):
         r = t
@@ -401,6 +429,19 @@ class Engine:
         else:
             t = cur[1]
             if self.access_hook is not None: self.note_access('write', t, st)
+            if self.store_hook is not None: self.store_hook(t, val, self.loc, st.facts)
+            # functional update of an aggregate stored at a prefix of the place
+            chain = []; r = t
+            while r[0] in ('fld', 'idx', 'dc') and r not in st.heap:
+                chain.append(r); r = r[1]
+            if chain and r in st.heap and st.heap[r][0] == 'agg':
+                path = []
+                for c in reversed(chain):
+                    if c[0] == 'fld': path.append(('f', c[2]))
+                    elif c[0] == 'dc': path.append(('dc', c[2]))
+                    else: path.append(('i', c[2][2]) if is_const(c[2]) else ('ix', c[2]))
+                st.heap[r] = self.update(st.heap[r], tuple(path), val, site)
+                return
             for k in [k for k in st.heap if k != t and (subterm(t, k) or subterm(k, t))]:
                 st.heap[k] = ('sym', ('havoc', site, k))
             st.heap[t] = val
@@ -425,7 +466,9 @@ class Engine:
             lhs = s["lhs"]
             lty = body.local_ty(lhs["l"]) if not lhs["p"] else None
             v = self.rvalue(body, fk, st, s["rv"], lty, (fk, bb, s["at"]))
-            if self.value_hook is not None: self.value_hook(v, self.loc, st.facts)
+            if self.value_hook is not None:
+                self.cur_lhs = lhs
+                self.value_hook(v, self.loc, st.facts)
             self.write_place(body, fk, st, lhs, v, (fk, bb, s["at"]))
         elif s["k"] == "setdiscr":
             self.write_place(body, fk, st, s["lhs"], ('sym', ('setdiscr', fk, bb)), (fk, bb))
@@ -589,7 +632,7 @@ class Engine:
         dty = term_ty(d)
         outs = []
         self.branches.append((d, self.loc))
-        is_bool = dty == 'bool' or (d[0] == 'op' and d[2] == 'bool')
+        is_bool = dty == 'bool' or (d[0] == 'op' and d[2] == 'bool') or self.operand_ty(body, t["discr"]) == 'bool'
         if is_bool:
             forced = self.assume(d) if self.assume else None
             for v, tg in targets + [(None, t["otherwise"])]:
@@ -794,8 +837,9 @@ def subterm(a, b):
 
 
 def walk(t):
-    yield t
+    """all sub-terms of t (tuples whose head is a constructor name; containers are traversed)"""
     if isinstance(t, tuple):
+        if t and isinstance(t[0], str): yield t
         for x in t:
             if isinstance(x, tuple):
                 for y in walk(x): yield y
